@@ -154,12 +154,12 @@ func runSchemaKeySource(p *Prog, r *Report) {
 				if len(as) == 1 {
 					if s, ok := as[0].(*ast.AssignStmt); ok && len(s.Rhs) == 1 {
 						if c, ok := ast.Unparen(s.Rhs[0]).(*ast.CallExpr); ok {
-							if f := calleeOf(info, c); f != nil && f.Name() == "MarshalJSON" {
+							if f := calleeOf(info, c); f != nil && fname(f) == "MarshalJSON" {
 								if sig, ok := f.Type().(*types.Signature); ok && sig.Recv() != nil && typeIs(derefType(sig.Recv().Type()), "hcl-lang/schema", "DependencyKeys") {
 									okSrc, detail = true, "bytes come from "+exprStr(c)
 								}
 							}
-							if f := calleeOf(info, c); f != nil && f.Name() == "Sprintf" && strings.HasSuffix(fn.Name, "schema.NewSchemaKey") {
+							if f := calleeOf(info, c); f != nil && fname(f) == "Sprintf" && strings.HasSuffix(fn.Name, "schema.NewSchemaKey") {
 								// failure branch of NewSchemaKey: dominated by err != nil
 								for _, fact := range fn.FactsAt(call) {
 									if fact.Kind == FactCond && fact.Cond != nil && strings.Contains(exprStr(fact.Cond), "err != nil") && fact.Pol {
